@@ -131,7 +131,7 @@ func (p *diffProp) Check(c Case) Outcome {
 
 func init() {
 	Register(&diffProp{id: "C01", focus: "", depth: 4, quick: 30000, thorough: 600000})
-	Register(&diffProp{id: "C02", focus: "selector", depth: 1, quick: 30000, thorough: 600000})
+	Register(&diffProp{id: "C02", focus: "selector", depth: 1, quick: 30000, thorough: 600000, extra: c02Extra})
 	Register(&diffProp{id: "C03", focus: "rangefn", depth: 1, quick: 30000, thorough: 600000})
 	Register(&diffProp{id: "C04", focus: "agg", depth: 2, quick: 30000, thorough: 600000})
 	Register(&diffProp{id: "C05", focus: "binary", depth: 2, quick: 30000, thorough: 600000})
